@@ -20,6 +20,16 @@ TARGETS = {
     "ledger_intents": dict(runs=20_000,  max_len=1395, dict=None),
     "csv_cells":      dict(runs=30_000, max_len=2 + 16 * 40, dict=None),
 }
+# strategy_bytes: the property's own proptest strategy fed with the fuzzer's bytes as entropy (pass-through RNG) and the same check
+# function.  Only (property, sub) pairs whose strategies are light on prop_oneof are listed: proptest forks the pass-through stream
+# once per earlier arm of every prop_oneof (halving what is left), so oneof-heavy strategies (C11, C18, C19, C20 table, C05 extreme /
+# xlsx, C12 rows, C14) run out of entropy and then spin in rand's rejection sampling on zeros.  runs = per job.
+STRATEGY_BYTES = {
+    "C01": [("ledger", 20_000)], "C02": [("window", 20_000), ("declared", 10_000), ("cells", 10_000)], "C03": [("identity", 15_000), ("windows", 15_000)],
+    "C04": [("accept", 12_000), ("reject", 8_000)], "C05": [("ledger", 10_000), ("damaged", 20_000)], "C06": [("totals", 8_000)], "C07": [("relayout", 5_000)],
+    "C08": [("split", 8_000)], "C10": [("roundtrip", 15_000)], "C12": [("lookup", 20_000)], "C13": [("history", 6_000)], "C15": [("neutral", 20_000)],
+    "C16": [("opening", 15_000)], "C17": [("costs", 20_000)], "C20": [("pages", 20_000)],
+}
 PLAN = {
     "C01": ["ledger_intents"], "C02": ["ledger_intents"], "C03": ["ledger_intents"], "C04": ["ledger_intents"],
     "C05": ["csv_cells", "csv_app", "etrade_text", "fmv_text"], "C11": ["csv_cells", "csv_roundtrip"],
@@ -30,8 +40,10 @@ def main():
     pid = sys.argv[1]
     scale = 1.0
     if "--scale" in sys.argv: scale = float(sys.argv[sys.argv.index("--scale") + 1])
-    targets = PLAN.get(pid, [])
-    if not targets: return 0
+    work = [(tg, tg, TARGETS[tg], {}) for tg in PLAN.get(pid, [])]
+    for sub, runs in STRATEGY_BYTES.get(pid, []):
+        work.append((f"strategy_bytes:{sub}", "strategy_bytes", dict(runs=runs, max_len=4096, dict=None), {"ACBVERIF_FUZZ_SUB": sub}))
+    if not work: return 0
     seed = int(os.environ.get("VERIF_SEED", "1") or "1")
     found = os.path.join(ROOT, "replays/found"); os.makedirs(found, exist_ok=True)
     base = "/dev/shm" if os.path.isdir("/dev/shm") and os.access("/dev/shm", os.W_OK) else None
@@ -39,28 +51,32 @@ def main():
     t0 = time.time()
     report, violations, inconclusive = {}, [], []
     try:
-        for tg in targets:
-            cfg = TARGETS[tg]; exe = os.path.join(BIN, tg)
+        for label, tg, cfg, extra_env in work:
+            exe = os.path.join(BIN, tg)
             if not os.path.exists(exe): inconclusive.append(f"{tg}: fuzz binary missing"); continue
             runs = max(1000, int(cfg["runs"] * scale))
             procs = []
             for j in range(JOBS):
-                d = os.path.join(tmp, tg, f"j{j}"); corpus = os.path.join(d, "corpus"); os.makedirs(corpus)
+                d = os.path.join(tmp, label.replace(":", "_"), f"j{j}"); corpus = os.path.join(d, "corpus"); os.makedirs(corpus)
                 sd = os.path.join(ROOT, "fuzz/seeds", tg)
                 if os.path.isdir(sd):
                     for f in sorted(os.listdir(sd)): shutil.copy(os.path.join(sd, f), corpus)
-                jseed = int(hashlib.sha256(f"{seed}/{pid}/{tg}/{j}".encode()).hexdigest()[:8], 16) % 0x7fffffff or 1
-                args = [exe, corpus, f"-runs={runs}", f"-seed={jseed}", f"-max_len={cfg['max_len']}", "-len_control=0", "-timeout=120",
-                        "-rss_limit_mb=4096", "-print_final_stats=1", f"-artifact_prefix={found}/{pid}-fuzz-{tg}-"]
+                jseed = int(hashlib.sha256(f"{seed}/{pid}/{label}/{j}".encode()).hexdigest()[:8], 16) % 0x7fffffff or 1
+                if tg == "strategy_bytes" and not os.listdir(corpus):
+                    # no seed files: a few KB of seeded pseudo-random bytes give the strategy something to draw from
+                    import random as _r; rr = _r.Random(jseed)
+                    for k in range(4): open(os.path.join(corpus, f"r{k}"), "wb").write(bytes(rr.randrange(256) for _ in range(600 * (k + 1))))
+                args = [exe, corpus, f"-runs={runs}", f"-seed={jseed}", f"-max_len={cfg['max_len']}", "-len_control=0", f"-timeout={30 if tg == 'strategy_bytes' else 120}",
+                        "-rss_limit_mb=4096", "-print_final_stats=1", f"-artifact_prefix={found}/{pid}-fuzz-{label.replace(':', '.')}-"]
                 if cfg["dict"]: args.append(f"-dict={os.path.join(ROOT, 'fuzz/dicts', cfg['dict'])}")
-                env = dict(os.environ, ACBVERIF_FUZZ_STATS=os.path.join(d, "stats.json"), ACBVERIF_FUZZ_CASES=found, ACBVERIF_FUZZ_PROP=pid, HOME=d, TMPDIR=d)
+                env = dict(os.environ, ACBVERIF_FUZZ_STATS=os.path.join(d, "stats.json"), ACBVERIF_FUZZ_CASES=found, ACBVERIF_FUZZ_PROP=pid, HOME=d, TMPDIR=d, **extra_env)
                 env.pop("ACBVERIF_STRICT", None)
                 log = open(os.path.join(d, "log.txt"), "wb")
                 procs.append((j, jseed, d, subprocess.Popen(args, cwd=d, env=env, stdin=subprocess.DEVNULL, stdout=log, stderr=log)))
-            execs = nontriv = corp = cov = 0; seeds = []
+            execs = nontriv = corp = cov = entropy_stalls = 0; seeds = []
             for j, jseed, d, p in procs:
                 try: rc = p.wait(timeout=7200)
-                except subprocess.TimeoutExpired: p.kill(); p.wait(); inconclusive.append(f"{tg} job {j}: still running after 7200 s; killed"); rc = None
+                except subprocess.TimeoutExpired: p.kill(); p.wait(); inconclusive.append(f"{label} job {j}: still running after 7200 s; killed"); rc = None
                 text = open(os.path.join(d, "log.txt"), "rb").read().decode("utf-8", "replace")
                 m = re.search(r"stat::number_of_executed_units:\s*(\d+)", text); e = int(m.group(1)) if m else 0
                 execs += e; seeds.append(jseed)
@@ -71,10 +87,12 @@ def main():
                 if rc not in (0, None):
                     art = re.search(r"Test unit written to (\S+)", text)
                     why = next((l for l in text.splitlines() if l.startswith("VIOLATION-")), None)
-                    if "ERROR: libFuzzer: timeout" in text or "out-of-memory" in text: inconclusive.append(f"{tg} job {j}: libFuzzer timeout/out-of-memory (artifact {art.group(1) if art else '-'})")
-                    elif art: violations.append((tg, art.group(1), why or "process died without an oracle message"))
-                    else: inconclusive.append(f"{tg} job {j}: exit {rc} without artifact")
-            report[tg] = dict(jobs=JOBS, runs_per_job=runs, executions=execs, reached_oracle=nontriv, corpus_units=corp, edges_covered=cov, seeds=seeds[:4])
+                    if tg == "strategy_bytes" and "ERROR: libFuzzer: timeout" in text: entropy_stalls += 1   # generator ran out of entropy (see STRATEGY_BYTES), not the product
+                    elif "ERROR: libFuzzer: timeout" in text or "out-of-memory" in text: inconclusive.append(f"{label} job {j}: libFuzzer timeout/out-of-memory (artifact {art.group(1) if art else '-'})")
+                    elif art: violations.append((label, art.group(1), why or "process died without an oracle message"))
+                    else: inconclusive.append(f"{label} job {j}: exit {rc} without artifact")
+            report[label] = dict(jobs=JOBS, runs_per_job=runs, executions=execs, reached_oracle=nontriv, corpus_units=corp, edges_covered=cov, seeds=seeds[:4])
+            if entropy_stalls: report[label]["jobs_ended_early_generator_out_of_entropy"] = entropy_stalls
     finally:
         shutil.rmtree(tmp, ignore_errors=True)
     seen = set(); nviol = 0
